@@ -231,7 +231,7 @@ def run(chk, replay=None):
     # the q120 kernels (products, layout conversions, additions, lifts): sources compared with snapshots inside the drivers of C10
     from props import c10
     for label, fn, args in (("q120 conversions, additions and lifts with source snapshots", c10.drive_conversions, (30 if quick else 300,)),
-                            ("q120 products with source snapshots", c10.drive_products, (0, [0, 1, 5, 64], 2))):
+                            ("q120 products with source and table snapshots", c10.drive_products, (0, [0, 1, 5, 64, 4097, 8193, 10000], 1))):
         dq = isolated(chk, label, fn, args, timeout=900)
         chk.traces += 1 if dq else 0
     d = isolated(chk, "operands back to back in one allocation", drive_adjacent, (quick,), timeout=900)
